@@ -102,6 +102,10 @@ class AbsEval(ConstEval):
         if orc is not None:
             r = orc(term)
             if r is not None:
+                try:
+                    self.__dict__.setdefault("assumed", {})[term] = bool(r)
+                except TypeError:
+                    pass
                 return bool(r)
         raise SymbolicBranch(term, node)
 
@@ -120,6 +124,11 @@ class AbsEval(ConstEval):
             if (a is None) != (b is None):
                 same = False
             return same if isinstance(op, ast.Is) else not same
+        if isinstance(op, (ast.In, ast.NotIn)) and isinstance(a, Res) and isinstance(b, (dict, list, tuple, set, frozenset, str)):
+            if not isinstance(b, str) and any(x is a or (isinstance(x, Res) and x == a) for x in b):
+                return isinstance(op, ast.In)
+            r_ = self.branch(Res("In", a, repr(b)[:40]), node)
+            return r_ if isinstance(op, ast.In) else not r_
         if isinstance(a, Res) or isinstance(b, Res):
             if isinstance(op, (ast.Eq, ast.NotEq)):
                 if a == b:
@@ -215,6 +224,8 @@ class AbsEval(ConstEval):
                 if isinstance(k, Res) and isinstance(base, dict):
                     if k in base:
                         return base[k]
+                    if any(v_ and isinstance(t_, Res) and t_.op == "In" and t_.args and t_.args[0] == k for t_, v_ in self.__dict__.get("assumed", {}).items()):
+                        return Res("lookup", k)  # membership was assumed on this valuation
                     raise AbsRaise("KeyError", repr(k))
                 if isinstance(k, Res):
                     raise SymbolicBranch(Res("index", k), e)
